@@ -113,8 +113,9 @@ claim('C11', 'CFG must-pass-through with guard polarity on the matcher state mac
       'tags are bound once, pushed on the undo stack and removed on backtrack; _check_cons is for-all constraints / exists option with '
       'each option comparing the component; tag numbering (named 1..n, temporaries from n+1, named_pattern_cnt = n, checker binds '
       'tag <= n); reference inlining concatenates both name chains and both constraint sets over the product of alternatives, '
-      'redefinitions accumulate; save/load round-trip the model. Semantic equivalence of the compiler with the schema text for all '
-      'schemas x names is NOT decided (one known defect there, DESIGN §5 #30, is out of static reach).',
+      'redefinitions accumulate; the trie builder drops the constraints of a pattern seen earlier in a chain only for named patterns '
+      '(a temporary one keeps them at every occurrence); save/load round-trip the model. Semantic equivalence of the compiler with '
+      'the schema text for all schemas x names is NOT decided.',
       'TlvModel codec of the binary model; lark grammar/parser')
 
 claim('C12', 'CFG must-pass-through on the signer membership test, provenance of the carried context, sibling normalisation checks, loop completeness of the signing-reference fix-up',
